@@ -50,6 +50,14 @@ ReachFrom(g, S) == LET T == S \cup UNION { Nbrs(g, a) : a \in S }
                    IN IF T = S THEN S ELSE ReachFrom(g, T)
 Components(g) == { ReachFrom(g, {a}) : a \in Atoms(g) }
 
+(* atoms that take part in the reaction (active_atoms): the ends of formed and broken
+   bonds - not of fleeting ones - and, for the stereo reaction class, every atom named by
+   a descriptor of a stereo change; ChangeIds is defined further down *)
+RoleBonds(g, r) == { b \in Bonds(g) : g.bd[b].role = r }
+BondCode(b) == LET lo == CHOOSE x \in b : \A y \in b : x <= y
+                   hi == CHOOSE x \in b : \A y \in b : y <= x
+               IN 100 * lo + hi
+
 (* ---- coherence of the abstract state (what every view must agree on) ---- *)
 Coherent(g) ==
    /\ DOMAIN g.aat = Atoms(g)
@@ -101,6 +109,8 @@ InvB(m, B, y) == CHOOSE b \in B : RenSet(m, b) = y
 (* every identifier that occurs anywhere in the graph *)
 DescrIds(f) == UNION { RealAtoms(f[k]) : k \in DOMAIN f }
 ChangeIds(f) == UNION { DescrIds(f[k]) : k \in DOMAIN f }
+ActiveCore(g) == UNION (RoleBonds(g, "formed") \cup RoleBonds(g, "broken"))
+                 \cup (IF HasChanges(g.kind) THEN ChangeIds(g.ach) \cup ChangeIds(g.bch) ELSE {})
 AllIds(g) == Atoms(g) \cup UNION Bonds(g)
              \cup DOMAIN g.ast \cup DescrIds(g.ast) \cup UNION (DOMAIN g.bst) \cup DescrIds(g.bst)
              \cup DOMAIN g.ach \cup ChangeIds(g.ach) \cup UNION (DOMAIN g.bch) \cup ChangeIds(g.bch)
